@@ -269,3 +269,30 @@ def exec_copy(job):
     ev = run_op(target, o, 0)
     return {"from": entries, "o": o, "deep": deep, "side": side, "same": same, "ok": ev["ok"], "mixed": bool(mixed),
             "S": flatten(target), "other": flatten(other), "indep": snapshot(other) == before}
+
+
+def reserved_probe(name):
+    """a reserved (method) name must be refused as the final name of an assignment in every form, and nothing may be stored"""
+    out = []
+    for form in ("item", "path", "updir", "attr", "setdefault", "update"):
+        d = build([{"p": [[1, -1], [2, -1]], "v": 1}])            # a.b = 1
+        before = flatten(d)
+        try:
+            if form == "item":
+                d[name] = 5
+            elif form == "path":
+                d["a." + name] = 5
+            elif form == "updir":
+                d["a.b.." + name] = 5
+            elif form == "attr":
+                setattr(d, name, 5)
+            elif form == "setdefault":
+                d.setdefault("a." + name, 5)
+            else:
+                d.update({name: 5})
+            out.append("%s accepted as a key (%s form)" % (name, form))
+        except Exception:
+            pass
+        if flatten(d) != before or dict.__contains__(d, name) or dict.__contains__(dict.__getitem__(d, "a"), name):
+            out.append("%s stored by a refused assignment (%s form)" % (name, form))
+    return out
